@@ -6,6 +6,7 @@ combinatorial steps are discharged as lemmas at the end of the file.
 """
 from pyvc.spec import *
 
+import os  # noqa: E402
 from pyvc import ctx as _ctx  # noqa: E402
 from pyvc.heap import Box, _default_of  # noqa: E402
 from pyvc.types import Ty  # noqa: E402
@@ -112,10 +113,13 @@ from happysimulator.components.consensus.raft_state_machine import KVStateMachin
 from happysimulator.components.network.network import Network  # noqa: E402
 from happysimulator.core.sim_future import SimFuture  # noqa: E402
 
+if "PYVC_OB_TIMEOUT_MS" not in os.environ:
+    _ctx.OB_TIMEOUT_MS = 8000       # per-obligation solver budget of this check (every clause discharges well below it)
+
 PROPERTY = {
     "id": "C11",
     "level": "proof",
-    "task_timeout": 3000,
+    "task_timeout": 3000 if "thorough" in sys.argv else 330,
     "trusted": ["heap typing of the fields declared in specs/C11.py and specs/common.py (incl. the local types EnumTy, "
                 "Record, EventContext: RaftState stored as its int value; event metadata as a record with a presence set)",
                 "structural reading of list surgery in clauses (specs/C11.py nth / pyvc/comp.py _nth,_len): for in-range "
@@ -1349,7 +1353,7 @@ def _ae_case(term_rel, prev_rel):
         a = {"<": t < cur, "=": t == cur, ">": t > cur}[term_rel[0]]
         if len(term_rel) > 1:       # same term: additionally split by the node's role
             a = a & (state_of(s.self) == {"F": FOLLOWER, "C": CANDIDATE, "L": LEADER}[term_rel[1]])
-        b = {"0": prev == 0, "+": prev > 0, "*": True}[prev_rel]
+        b = {"0": prev == 0, "+": prev > 0, "*": True, "hb": mk_bool(z3.Length(MSG.acc("entries")(m)) == 0)}[prev_rel]
         return a & b
     return req
 
@@ -1357,6 +1361,11 @@ def _ae_case(term_rel, prev_rel):
 AE_CASES = [("stale-term", "<", "*"), ("newer-term-prev-0", ">", "0"), ("newer-term-prev-pos", ">", "+")] + [
     (f"same-term-{role}-prev-{pn}", "=" + r, p) for r, role in (("F", "follower"), ("C", "candidate"), ("L", "leader"))
     for p, pn in (("0", "0"), ("+", "pos"))]
+# quick tier: the stale-term cell and the heartbeat cells (no entries: vote / term / commit / reply clauses);
+# the cells with entries (log surgery, several minutes each) run in the thorough tier
+AE_QUICK = {"stale-term", "heartbeat-same-term-follower"}
+AE_CASES += [("heartbeat-same-term-follower", "=F", "hb"), ("heartbeat-same-term-candidate", "=C", "hb"),
+             ("heartbeat-same-term-leader", "=L", "hb"), ("heartbeat-newer-term", ">", "hb")]
 
 
 def _ae_split():
@@ -1370,6 +1379,7 @@ lemma("append-entries-case-split", _ae_split)
 
 for _label, _tr, _pr in AE_CASES:
   fn(RaftNode, "_handle_append_entries", label=_label, args={"event": Ref(Event)},
+   tags=() if _label in AE_QUICK else ("thorough-only",),
    uses=[SEND, SCHED_ET, STEP_DOWN, FIND_PEER, APPLY],
    focus=node_focus,
    requires=[("well-formed-request-with-contiguous-entries-after-prev", _ae_wellformed),
